@@ -119,10 +119,20 @@ RAW_KINDS = ["html-block", "html-inline", "raw-directive", "raw-role", "evalrst-
              "strike", "html-img", "html-admonition", "nested-html", "latex-directive"]
 FILE_KINDS = ["include", "include-literal", "include-code", "csv-file", "raw-file", "rst-include", "rst-csv-file",
               "rst-raw-file", "nested-include"]
+# every spelling of the include argument that MockIncludeDirective.run distinguishes, x the option variants
+INC_SPELLINGS = ["abs", "std", "std-abs", "std-dotdot", "dotdot"]
+INC_OPTS = ["plain", "literal", "code", "parser"]
+FILE_KINDS += [f"include-{sp}-{o}" for sp in INC_SPELLINGS for o in INC_OPTS]
+FILE_KINDS += ["rst-include-std", "rst-include-std-abs", "rst-include-abs"]
+
+
+def std_include_dir():
+    from docutils.parsers.rst.directives.misc import Include
+    return os.path.abspath(Include.standard_include_path)
 CONTROL_KINDS = ["math", "image", "figure", "plain"]
 
 
-def construct(kind, n, files):
+def construct(kind, n, files, d="."):
     """-> dict(lines, markup=[regexes that must not be in the output when raw is disabled],
                filecontent=[strings that must not appear when file insertion is disabled], files=[names])"""
     s = f"SENT{n}X"
@@ -166,6 +176,31 @@ def construct(kind, n, files):
     elif kind == "nested-html":
         c["lines"] = ["````{note}", "> quoted", f'> {tag}deep</b> x\\', "> y", "", f'<div id="{s}d">', "</div>", "````"]
         c["markup"] = [re.escape(tag), f'<div id="{s}d">', r"<br ?/?>"]
+    elif kind.startswith(("include-abs", "include-std", "include-dotdot", "rst-include-std", "rst-include-abs")):
+        rst = kind.startswith("rst-")
+        parts = kind.split("-")
+        opt = parts[-1] if not rst and parts[-1] in INC_OPTS else "plain"
+        sp = "-".join(parts[2:]) if rst else "-".join(parts[1:-1])
+        payload = f"FILE{n}PAYLOAD"
+        fname = f"sent{n}." + ("rst" if rst else "md")
+        target = os.path.join(d, "sub", fname) if sp == "dotdot" else os.path.join(d, fname)
+        if sp == "std":
+            # a definition file shipped with docutils
+            target = os.path.join(std_include_dir(), "isonum.txt")
+            arg = "<isonum.txt>"
+            c["content"] = ['names="amp"'] if rst else ["AMPERSAND"]
+        else:
+            files[os.path.relpath(target, d)] = f"para {payload}\n"
+            c["content"] = [payload]
+            arg = {"abs": target, "std-abs": "<" + target + ">",
+                   "std-dotdot": "<" + os.path.relpath(target, std_include_dir()) + ">",
+                   "dotdot": os.path.join("sub", "..", "sub", fname)}[sp]
+        c["watch"] = [target]
+        if rst:
+            c["lines"] = ["```{eval-rst}", f".. include:: {arg}", "```"]
+        else:
+            c["lines"] = [f"```{{include}} {arg}"] + {"plain": [], "literal": [":literal:"], "code": [":code: python"],
+                                                    "parser": [":parser: rst"]}[opt] + ["```"]
     elif kind in FILE_KINDS:
         fname = f"sent{n}." + {"csv-file": "csv", "rst-csv-file": "csv", "raw-file": "html", "rst-raw-file": "html",
                                "rst-include": "rst"}.get(kind, "md")
@@ -174,6 +209,7 @@ def construct(kind, n, files):
                 "md": f"para {payload}\n"}[fname.rsplit(".", 1)[1]]
         files[fname] = body
         c["files"] = [fname]
+        c["watch"] = [os.path.join(d, fname)]
         c["content"] = [payload]
         if kind == "include":
             c["lines"] = [f"```{{include}} {fname}", "```"]
@@ -212,9 +248,9 @@ def gen_doc(rng, kinds=None):
             if "strike" in k else sorted(rng.sample(EXT_ALL, rng.randint(1, len(EXT_ALL))))}
 
 
-def build(case):
+def build(case, d="."):
     files = {}
-    cs = [construct(k, i + 1, files) for i, k in enumerate(case["kinds"])]
+    cs = [construct(k, i + 1, files, d) for i, k in enumerate(case["kinds"])]
     lines = ["MARKERBEFORE paragraph", ""]
     for c in cs:
         lines += c["lines"] + [""]
@@ -228,10 +264,13 @@ def run_doc(case, raw_enabled, file_insertion):
     from docutils.core import publish_doctree, publish_from_doctree
     from lib.impl import scratch_dir
     from myst_parser.parsers.docutils_ import Parser
-    cs, files, text = build(case)
-    out = {"constructs": cs}
+    out = {}
     with scratch_dir() as d:
+        d = os.path.realpath(d)
+        cs, files, text = build(case, d)
+        out["constructs"] = cs
         for name, content in files.items():
+            os.makedirs(os.path.dirname(os.path.join(d, name)), exist_ok=True)
             with open(os.path.join(d, name), "w", encoding="utf8") as f:
                 f.write(content)
         ws = io.StringIO()
@@ -245,7 +284,12 @@ def run_doc(case, raw_enabled, file_insertion):
             except Exception as e:
                 out["exc"] = e
                 return out
-        out["trace"] = {name: tr.touched(os.path.join(d, name)) for name in files}
+        deps = [os.path.normpath(os.path.abspath(x)) for x in doc.settings.record_dependencies.list]
+        out["trace"] = {}
+        for c in cs:
+            for w in c.get("watch", []):
+                wn = os.path.normpath(os.path.abspath(w))
+                out["trace"][w] = tr.touched(w) + ([("record_dependencies", wn)] if wn in deps else [])
         out["raw_nodes"] = [(n.get("format"), n.astext()[:60]) for n in doc.findall(nodes.raw)]
         out["pformat"] = doc.pformat()
         out["messages"] = [m.astext() for m in doc.findall(nodes.system_message)]
@@ -301,16 +345,16 @@ def check_doc(ctx, case, quiet=False):
                                  f"refusals are reported under {tag}", want, got_raw))
         if not file_on:
             for c in r["constructs"]:
-                for fname in c["files"]:
+                for fname in c.get("watch", []):
                     if r["trace"].get(fname):
                         problems.append(("file:read-when-disabled:" + c["kind"],
-                                         f"{fname} was accessed by {c['kind']} under {tag}: {r['trace'][fname][:3]}",
-                                         "no access", r["trace"][fname][:3]))
+                                         f"{os.path.basename(fname)} was accessed by {c['kind']} under {tag}: "
+                                         f"{r['trace'][fname][:3]}", "no access", r["trace"][fname][:3]))
                 for t in c["content"]:
                     if t in r["pformat"] or t in body:
                         problems.append(("file:content-inserted:" + c["kind"],
                                          f"content of the file of {c['kind']} is in the document under {tag}", "absent", t))
-                if c["files"]:
+                if c.get("watch"):
                     n_dis = len(re.findall(r"disabled|deactivated", r["warnings"]))
                     if n_dis < 1:
                         problems.append(("file:no-warning:" + c["kind"], f"no refusal reported for {c['kind']} under {tag}",
@@ -325,6 +369,9 @@ def check_doc(ctx, case, quiet=False):
         problems.append(("harness:no-raw-with-raw-enabled", "raw-capable constructs produced no raw node with raw enabled",
                          ">=1", base["pformat"][:600]))
     for c in base["constructs"]:
+        if c.get("watch") and not any(base["trace"].get(w) for w in c["watch"]):
+            problems.append(("harness:file-not-read-when-enabled:" + c["kind"],
+                             "no recorded access to the file although file insertion is enabled", c["watch"], base["trace"]))
         for t in c["content"]:
             if not c.get("needs_raw") and t not in base["pformat"]:
                 problems.append(("harness:file-not-inserted-when-enabled:" + c["kind"],
@@ -452,39 +499,64 @@ def corr(ctx):
         elif o is None and not enabled and impl.endswith("\t1"):
             ctx.disagree("raw node survives the loop", {"tree": enc, "raw_enabled": enabled}, impl[:600], "no raw")
     ctx.sample({"loop_tree": cases[0][2]} if cases else {})
-    # (b) the include prefix
+    # (b) the include prefix, every argument spelling
+    from docutils import nodes
+    from docutils.core import publish_doctree
     from lib.impl import scratch_dir
+    from lib.common import dec_str
+    from myst_parser.parsers.docutils_ import Parser
     reqs, obs = [], []
+    std = std_include_dir()
     for fie in (False, True):
         for exists in (False, True):
             for variant in ("plain", "literal", "code"):
-                opts = {"plain": [], "literal": [":literal:"], "code": [":code: python"]}[variant]
-                with scratch_dir() as d:
-                    if exists:
-                        with open(os.path.join(d, "f.md"), "w") as f:
-                            f.write("included FILEPAYLOAD\n")
-                    text = "\n".join(["```{include} f.md"] + opts + ["```"]) + "\n"
-                    from docutils.core import publish_doctree
-                    from docutils import nodes
-                    from myst_parser.parsers.docutils_ import Parser
-                    ws = io.StringIO()
-                    with record_fs() as tr:
-                        doc = publish_doctree(text, source_path=os.path.join(d, "main.md"), parser=Parser(),
-                                              settings_overrides={"warning_stream": ws, "report_level": 1, "halt_level": 5,
-                                                                  "file_insertion_enabled": fie})
-                    touched = tr.touched(os.path.join(d, "f.md"))
-                    deps = [os.path.basename(x) for x in doc.settings.record_dependencies.list]
-                    msgs = [m["level"] for m in doc.findall(nodes.system_message)]
-                    res = ("error%d" % max(msgs)) if msgs else "nodes"
-                    trace = (["depend"] if "f.md" in deps else []) + (["read"] if touched else [])
-                reqs.append("include\t%s\t0\t%s\t%s\t%s" % ("1" if fie else "0", enc_str("include"), enc_str("f.md"),
-                                                           "1" if exists else "0"))
-                obs.append(({"file_insertion_enabled": fie, "exists": exists, "variant": variant},
-                            res + "\t" + ",".join(trace)))
-    outs = model_run(PID, reqs) if ctx.have_runner else [o for _, o in obs]
+                for sp in ("rel", "abs", "std", "std-abs", "std-dotdot"):
+                    opts = {"plain": [], "literal": [":literal:"], "code": [":code: python"]}[variant]
+                    with scratch_dir() as d:
+                        d = os.path.realpath(d)
+                        target = os.path.join(d, "f.md")
+                        if exists:
+                            with open(target, "w") as f:
+                                f.write("included FILEPAYLOAD\n")
+                        if sp == "std":
+                            inner = "isonum.txt" if exists else "nonexistent-x.txt"
+                            arg = "<" + inner + ">"
+                        else:
+                            arg = {"rel": "f.md", "abs": target, "std-abs": "<" + target + ">",
+                                   "std-dotdot": "<" + os.path.relpath(target, std) + ">"}[sp]
+                        text = "\n".join(["```{include} " + arg] + opts + ["```"]) + "\n"
+                        ws = io.StringIO()
+                        with record_fs() as tr:
+                            doc = publish_doctree(text, source_path=os.path.join(d, "main.md"), parser=Parser(),
+                                                  settings_overrides={"warning_stream": ws, "report_level": 1,
+                                                                      "halt_level": 5, "file_insertion_enabled": fie})
+                        is_std = arg.startswith("<") and arg.endswith(">")
+                        want_path = os.path.normpath(os.path.join(std, arg[1:-1]) if is_std else os.path.join(d, arg))
+                        label = ("S" + arg[1:-1]) if is_std else ("P" + arg)
+
+                        def lab(pth):
+                            return label if os.path.normpath(os.path.abspath(pth)) == want_path else "?" + pth
+                        deps = [lab(x) for x in doc.settings.record_dependencies.list]
+                        reads = sorted({lab(e[1]) for e in tr.events
+                                        if e[0] == "read_text" and not e[1].endswith("main.md")})
+                        msgs = [m["level"] for m in doc.findall(nodes.system_message)]
+                        res = ("error%d" % max(msgs)) if msgs else "nodes"
+                        trace = ["depend:" + x for x in deps] + ["read:" + x for x in reads]
+                    reqs.append("include\t%s\t0\t%s\t%s\t%s" % ("1" if fie else "0", enc_str("include"), enc_str(arg),
+                                                               "1" if exists else "0"))
+                    obs.append(({"file_insertion_enabled": fie, "exists": exists, "variant": variant, "spelling": sp,
+                                 "arg": arg}, res + "\t" + ",".join(trace)))
+    if ctx.have_runner:
+        outs = []
+        for o in model_run(PID, reqs):
+            r, _, t = o.partition("\t")
+            evs = [e.split(":")[0] + ":" + dec_str(e.split(":")[1]) for e in t.split(";") if ":" in e]
+            outs.append(r + "\t" + ",".join(evs))
+    else:
+        outs = [o for _, o in obs]
     for (case, impl), o in zip(obs, outs):
         ctx.corr_cases += 1
-        ctx.count("include-prefix")
+        ctx.count("include-prefix:" + case["spelling"])
         if impl != o:
             ctx.disagree("MockIncludeDirective.run prefix vs include_run_prefix", case, impl, o)
 
